@@ -170,3 +170,67 @@ harness! {
         kani::cover!(p.is_nan() || weight.is_nan() || period.is_nan(), "NaN inputs covered");
     }
 }
+
+// ------------------------------------------------------------------------------------------
+// c10_server_req: what one datagram can do to the server-requested minimum (NTPv5 source without
+// NTS, a request in flight). Template: header48 + draft-identification field; all header bytes
+// symbolic.
+nharness! {
+    #[kani::unwind(26)]
+    #[kani::stub(core::str::from_utf8, crate::common::from_utf8_ascii_model)]
+    #[kani::stub(core::slice::ascii::is_ascii, crate::common::is_ascii_model)]
+    fn c10_server_req() {
+        stubs::symbolic_clock();
+        let mut buf: [u8; 80] = kani::any();
+        let min: i8 = kani::any();
+        let max: i8 = kani::any();
+        kani::assume(0 <= min && min <= max && max <= 17);
+        let desire: i8 = kani::any();
+        kani::assume(min <= desire && desire <= max);
+        let old: i8 = kani::any();
+        kani::assume(min <= old && old <= 17);
+        let reach: u8 = kani::any();
+        let req_origin: u64 = kani::any();
+        let deadline_s: i64 = kani::any();
+        let deadline_n: u32 = kani::any();
+        kani::assume(deadline_s >= 0 && deadline_s < (1 << 40) && deadline_n < 1_000_000_000);
+        let origin_match: bool = kani::any();
+        let send_raw: u64 = kani::any();
+        let recv_raw: u64 = kani::any();
+
+        let mut src = new_source(ProtocolVersion::V5, cfg(min, max), poll(desire), None);
+        sh::set_remote_min_poll_interval(&mut src, poll(old));
+        // what the last poll left behind: the interval used was max(desire, server minimum)
+        let last = core::cmp::max(desire, old);
+        sh::set_last_poll_interval(&mut src, poll(last));
+        sh::set_reach(&mut src, reach);
+        let deadline = tokio::time::Instant::from_std(stubs::make_instant(deadline_s, deadline_n));
+        sh::set_pending(&mut src, Some((th::ts_from_raw(req_origin), None, deadline)));
+
+        kani::assume((buf[0] >> 3) & 7 == 5);
+        buf[48] = 0xF5;
+        buf[49] = 0xFF;
+        buf[50] = 0;
+        buf[51] = 27;
+        buf[52..75].copy_from_slice(b"draft-ietf-ntp-ntpv5-09");
+        buf[75] = 0;
+        if origin_match {
+            buf[24..32].copy_from_slice(&req_origin.to_be_bytes());
+        }
+        let requested = buf[2] as i8;
+
+        let (_acts, _n) = collect_actions(src.handle_incoming(&buf[..76], th::ts_from_raw(send_raw), th::ts_from_raw(recv_raw)));
+
+        let new = th::poll_raw(sh::state(&src).remote_min_poll_interval);
+        let processed = sh::controller(&src).n_meas > 0;
+        if processed {
+            assert!(new == core::cmp::max(old, requested), "time response: server minimum becomes max(old, requested)");
+        }
+        assert!(new >= old, "no datagram lowers the server-requested minimum");
+        assert!(new <= core::cmp::max(core::cmp::max(old, max), requested), "never above max(old, configured maximum, requested)");
+        kani::cover!(processed && new > old && new == 127, "server asks for the longest interval");
+        kani::cover!(processed && requested < 0 && new == old, "negative request ignored");
+        kani::cover!(!processed && new > old, "kiss-o'-death RATE raises the minimum");
+        kani::cover!(!processed && new == old && origin_match, "response to the pending request without effect on the minimum");
+    }
+}
